@@ -30,9 +30,9 @@ func h05Schemas() [][]string {
 	return [][]string{
 		// same-named identities in modules that even share their prefix, derived from one base
 		{`module r { namespace "urn:r"; prefix r; identity base; leaf l { type identityref { base base; } } }`,
-			`module a { namespace "urn:a"; prefix p; import r { prefix r; } identity x { base r:base; } identity y { base r:base; } }`,
+			`module a { namespace "urn:a"; prefix p; import r { prefix r; } identity x { base r:base; } }`,
 			`module b { namespace "urn:b"; prefix p; import r { prefix r; } identity x { base r:base; } }`,
-			`module c { namespace "urn:c"; prefix p; import r { prefix r; } identity x { base r:base; } identity w { base x; } }`},
+			`module c { namespace "urn:c"; prefix p; import r { prefix r; } identity x { base r:base; } }`},
 		// augments from several modules, chained, onto a choice (implicit cases) and colliding
 		{`module m { namespace "urn:m"; prefix m; container c { choice ch { leaf s1 { type string; } } } }`,
 			`module a1 { namespace "urn:a1"; prefix a1; import m { prefix m; } augment /m:c { container d { leaf x { type string; } } } augment /m:c/m:ch { leaf s2 { type string; } } }`,
